@@ -266,4 +266,186 @@ Section Rename.
       change (set_next (rn_track tr) (t_next (rn_track tr) + x)) with (rn_track (set_next tr (t_next tr + x))). rewrite rn_upd. reflexivity.
     - reflexivity.
   Qed.
+
+  (** ** next_id never decreases (so the ids that are fresh stay within the range where f commutes with successor) *)
+  Lemma exec_op_next_le cfg tl o : (next_id tl <= next_id (fst (exec_op cfg tl o)))%nat.
+  Proof.
+    destruct o as [|s q d count rwd name replace|t s q d count|t| |t|t|t x|q d]; cbn [exec_op fst]; try (cbn [next_id]; lia).
+    - fold (named_target tl name replace). destruct (named_target tl name replace) as [[nm tr]|].
+      + pose proof (track_update_sched cfg tl tr s q d count) as U.
+        destruct (track_update cfg tl tr s q d count) as [tl1 tr1]. destruct U as [_ [U2 _]]. cbn [fst set_tracks next_id]. lia.
+      + destruct (negb (max_tracks cfg =? 0) && (max_tracks cfg <=? Z.of_nat (length (tracks tl)))); [cbn [fst]; lia|].
+        pose proof (track_update_sched cfg tl (new_track (next_id tl) count rwd name) s q d None) as U.
+        destruct (track_update cfg tl (new_track (next_id tl) count rwd name) s q d None) as [tl1 tr1].
+        destruct U as [_ [U2 _]]. cbn [fst next_id]. lia.
+    - destruct (find_track t (tracks tl)) as [tr|].
+      + pose proof (track_update_sched cfg tl tr s q d count) as U.
+        destruct (track_update cfg tl tr s q d count) as [tl1 tr1]. destruct U as [_ [U2 _]].
+        cbn [fst upd_track set_tracks next_id]. lia.
+      + destruct (t <? next_id tl)%nat; [|cbn [fst]; lia].
+        pose proof (track_update_sched cfg tl (new_track t None true None) s q d count) as U.
+        destruct (track_update cfg tl (new_track t None true None) s q d count) as [tl1 tr1]. destruct U as [_ [U2 _]].
+        cbn [fst]. lia.
+    - destruct (find_track t (tracks tl)); cbn [fst]; [rewrite remove_next|]; lia.
+    - rewrite clear_next. lia.
+    - destruct (find_track t (tracks tl)); cbn [fst upd_track set_tracks next_id]; lia.
+    - destruct (find_track t (tracks tl)); cbn [fst upd_track set_tracks next_id]; lia.
+    - destruct (find_track t (tracks tl)); cbn [fst upd_track set_tracks next_id]; lia.
+  Qed.
+
+  Lemma exec_cb_ops_next_le cfg ops : forall tl, (next_id tl <= next_id (exec_cb_ops cfg tl ops))%nat.
+  Proof.
+    induction ops as [|o r IH]; intros tl; cbn [exec_cb_ops]; [lia|].
+    pose proof (exec_op_next_le cfg tl o) as L. destruct (exec_op cfg tl o) as [tl' res]. cbn [fst] in L.
+    destruct res; try lia. specialize (IH tl'). lia.
+  Qed.
+
+  Lemma phase_tracks_next_le cfg ids tl calls : (next_id tl <= next_id (fst (fst (phase_tracks cfg tl ids calls))))%nat.
+  Proof.
+    apply (Q_phase_tracks cfg (fun a b => (next_id a <= next_id b)%nat) (fun _ _ => True)); auto.
+    - intros. lia.
+    - intros cb o tl0 _. apply exec_op_next_le.
+    - intros. rewrite remove_next. lia.
+  Qed.
+  Lemma tick_one_next_le cfg tl id : (next_id tl <= next_id (fst (fst (tick_one cfg tl id))))%nat.
+  Proof.
+    pose proof (phase_tracks_next_le cfg [id] tl []) as H. cbn [phase_tracks] in H.
+    destruct (tick_one cfg tl id) as [[tl' c] ab]. destruct ab; exact H.
+  Qed.
+
+  Lemma tl_tick_next_le cfg tl : (next_id tl <= next_id (fst (fst (tl_tick cfg tl))))%nat.
+  Proof.
+    unfold tl_tick. destruct (phase_noteoffs (tracks tl)) as [trs1 c1].
+    pose proof (phase_actions_next (actions (set_tracks tl trs1)) (set_actions (set_tracks tl trs1) []) [] []) as PA.
+    destruct (phase_actions (set_actions (set_tracks tl trs1) []) (actions (set_tracks tl trs1)) [] []) as [[tl2 kept] c3].
+    cbn [fst] in PA.
+    pose proof (phase_tracks_next_le cfg (map t_id (tracks (set_actions tl2 (kept ++ actions tl2)))) (set_actions tl2 (kept ++ actions tl2)) []) as PT.
+    destruct (phase_tracks cfg (set_actions tl2 (kept ++ actions tl2)) (map t_id (tracks (set_actions tl2 (kept ++ actions tl2)))) []) as [[tl4 c4] res].
+    cbn [fst set_actions set_tracks next_id] in PT, PA.
+    destruct res; cbn [fst]; try lia. destruct (_ && _); cbn [fst next_id]; lia.
+  Qed.
+
+  Lemma step_exec cfg tl o : o <> OTick -> step cfg tl o = (fst (exec_op cfg tl o), [], snd (exec_op cfg tl o)).
+  Proof. destruct o; [congruence|..]; intros _; unfold step; destruct (exec_op cfg tl _); reflexivity. Qed.
+
+  Lemma step_next_le cfg tl o : (next_id tl <= next_id (fst (fst (step cfg tl o))))%nat.
+  Proof.
+    destruct o; [exact (tl_tick_next_le cfg tl)|..];
+      (rewrite step_exec by discriminate; cbn [fst]; apply exec_op_next_le).
+  Qed.
+
+  (** ** Callbacks, the turn of one track, the tick *)
+  Lemma rn_exec_cb_ops cfg ops : forall tl, (n0 <= next_id tl)%nat ->
+    exec_cb_ops (rn_cfg cfg) (rn_tl tl) (map rn_op ops) = rn_tl (exec_cb_ops cfg tl ops).
+  Proof.
+    induction ops as [|o r IH]; intros tl N; [reflexivity|]. cbn [map exec_cb_ops]. rewrite rn_exec_op by exact N.
+    pose proof (exec_op_next_le cfg tl o) as L. destruct (exec_op cfg tl o) as [tl' res]. cbn [fst snd] in *.
+    destruct res; try reflexivity. apply IH. lia.
+  Qed.
+  Lemma rn_cb_completes cfg ops : forall tl, (n0 <= next_id tl)%nat ->
+    cb_completes (rn_cfg cfg) (rn_tl tl) (map rn_op ops) = cb_completes cfg tl ops.
+  Proof.
+    induction ops as [|o r IH]; intros tl N; [reflexivity|]. cbn [map cb_completes]. rewrite rn_exec_op by exact N.
+    pose proof (exec_op_next_le cfg tl o) as L. destruct (exec_op cfg tl o) as [tl' res]. cbn [fst snd] in *.
+    destruct res; try reflexivity. apply IH. lia.
+  Qed.
+  Lemma rn_nth_cb cfg cb : nth cb (cbs (rn_cfg cfg)) (CbNone, []) = rn_cb (nth cb (cbs cfg) (CbNone, [])).
+  Proof. exact (map_nth rn_cb (cbs cfg) (CbNone, []) cb). Qed.
+
+  Lemma rn_tick_one cfg tl id : (n0 <= next_id tl)%nat ->
+    tick_one (rn_cfg cfg) (rn_tl tl) (f id) = let '(tl', c, ab) := tick_one cfg tl id in (rn_tl tl', c, ab).
+  Proof.
+    intros N. unfold tick_one. change (tracks (rn_tl tl)) with (map rn_track (tracks tl)). rewrite rn_find.
+    destruct (find_track id (tracks tl)) as [tr|]; cbn [option_map]; [|reflexivity].
+    change (now (rn_tl tl)) with (now tl). change (dev_calls (rn_tl tl)) with (dev_calls tl). rewrite rn_tick_a.
+    destruct (track_tick_a cfg (now tl) tr (dev_calls tl)) as [[[tr1 c] n'] res]. cbv beta iota.
+    rewrite rn_upd, rn_set_dev.
+    change (t_finished (rn_track tr1)) with (t_finished tr1). change (t_rwd (rn_track tr1)) with (t_rwd tr1).
+    change (ignore_exc (rn_cfg cfg)) with (ignore_exc cfg).
+    destruct res.
+    - destruct (t_finished tr1 && t_rwd tr1); [rewrite rn_remove|]; reflexivity.
+    - rewrite rn_finish. reflexivity.
+    - rewrite rn_finish. reflexivity.
+    - destruct (ignore_exc cfg); [rewrite rn_remove|]; reflexivity.
+    - rewrite rn_nth_cb. destruct (nth cb (cbs cfg) (CbNone, [])) as [rk ops]. unfold rn_cb. cbn [fst snd].
+      assert (N1 : (n0 <= next_id (set_dev (upd_track tl tr1) n'))%nat) by exact N.
+      rewrite rn_exec_cb_ops by exact N1. rewrite rn_cb_completes by exact N1.
+      destruct (match rk with CbStop => cb_completes cfg (set_dev (upd_track tl tr1) n') ops | _ => false end);
+        [rewrite rn_end_stream|]; rewrite rn_finish; reflexivity.
+    - reflexivity.
+  Qed.
+
+  Lemma rn_phase_tracks cfg ids : forall tl calls, (n0 <= next_id tl)%nat ->
+    phase_tracks (rn_cfg cfg) (rn_tl tl) (map f ids) calls =
+    let '(tl', c, r) := phase_tracks cfg tl ids calls in (rn_tl tl', c, r).
+  Proof.
+    induction ids as [|id r IH]; intros tl calls N; [reflexivity|]. cbn [map phase_tracks]. rewrite rn_tick_one by exact N.
+    pose proof (tick_one_next_le cfg tl id) as L. destruct (tick_one cfg tl id) as [[tl' c] ab]. cbn [fst] in L.
+    destruct ab; [reflexivity|]. apply IH. lia.
+  Qed.
+
+  Theorem rn_tl_tick cfg tl : (n0 <= next_id tl)%nat ->
+    tl_tick (rn_cfg cfg) (rn_tl tl) = let '(tl', c, r) := tl_tick cfg tl in (rn_tl tl', c, r).
+  Proof.
+    intros N. unfold tl_tick. change (tracks (rn_tl tl)) with (map rn_track (tracks tl)). rewrite rn_phase_noteoffs.
+    destruct (phase_noteoffs (tracks tl)) as [trs1 c1]. cbn [fst snd].
+    change (set_actions (set_tracks (rn_tl tl) (map rn_track trs1)) []) with (rn_tl (set_actions (set_tracks tl trs1) [])).
+    change (actions (set_tracks (rn_tl tl) (map rn_track trs1))) with (map rn_action (actions (set_tracks tl trs1))).
+    pose proof (rn_phase_actions (actions (set_tracks tl trs1)) (set_actions (set_tracks tl trs1) []) [] []) as PA.
+    change (map rn_action []) with (@nil action) in PA. rewrite PA. clear PA.
+    pose proof (phase_actions_next (actions (set_tracks tl trs1)) (set_actions (set_tracks tl trs1) []) [] []) as PN.
+    destruct (phase_actions (set_actions (set_tracks tl trs1) []) (actions (set_tracks tl trs1)) [] []) as [[tl2 kept] c3].
+    cbn [fst set_actions set_tracks next_id] in PN.
+    change (actions (rn_tl tl2)) with (map rn_action (actions tl2)). rewrite <- map_app.
+    change (set_actions (rn_tl tl2) (map rn_action (kept ++ actions tl2))) with (rn_tl (set_actions tl2 (kept ++ actions tl2))).
+    set (tl3 := set_actions tl2 (kept ++ actions tl2)).
+    assert (N3 : (n0 <= next_id tl3)%nat) by (subst tl3; cbn [set_actions next_id]; lia).
+    change (tracks (rn_tl tl3)) with (map rn_track (tracks tl3)). rewrite map_map.
+    change (map (fun x => t_id (rn_track x)) (tracks tl3)) with (map (fun x => f (t_id x)) (tracks tl3)).
+    rewrite <- (map_map t_id f). rewrite rn_phase_tracks by exact N3.
+    destruct (phase_tracks cfg tl3 (map t_id (tracks tl3)) []) as [[tl4 c4] res].
+    change (stop_when_done (rn_cfg cfg)) with (stop_when_done cfg). change (tau (rn_cfg cfg)) with (tau cfg).
+    destruct res; try reflexivity.
+    change (tracks (rn_tl tl4)) with (map rn_track (tracks tl4)). change (actions (rn_tl tl4)) with (map rn_action (actions tl4)).
+    destruct (tracks tl4); destruct (actions tl4); cbn [map andb]; destruct (stop_when_done cfg); reflexivity.
+  Qed.
+
+  Theorem rn_step cfg tl o : (n0 <= next_id tl)%nat ->
+    step (rn_cfg cfg) (rn_tl tl) (rn_op o) = let '(tl', c, r) := step cfg tl o in (rn_tl tl', c, r).
+  Proof.
+    intros N. destruct o; [exact (rn_tl_tick cfg tl N)|..];
+      (rewrite (step_exec (rn_cfg cfg)) by (cbn [rn_op]; discriminate); rewrite rn_exec_op by exact N;
+       rewrite (step_exec cfg) by discriminate; reflexivity).
+  Qed.
+
+  (** ** Histories *)
+  Theorem rn_run_state cfg ops : forall tl, (n0 <= next_id tl)%nat ->
+    run_state (rn_cfg cfg) (rn_tl tl) (map rn_op ops) = rn_tl (run_state cfg tl ops).
+  Proof.
+    induction ops as [|o r IH]; intros tl N; [reflexivity|]. cbn [map run_state]. rewrite rn_step by exact N.
+    pose proof (step_next_le cfg tl o) as L. destruct (step cfg tl o) as [[tl' c] res]. cbn [fst] in L. apply IH. lia.
+  Qed.
+  Theorem rn_tick_calls cfg ops : forall tl, (n0 <= next_id tl)%nat ->
+    tick_calls (rn_cfg cfg) (rn_tl tl) (map rn_op ops) = tick_calls cfg tl ops.
+  Proof.
+    induction ops as [|o r IH]; intros tl N; [reflexivity|]. cbn [map tick_calls]. rewrite rn_step by exact N.
+    pose proof (step_next_le cfg tl o) as L. destruct (step cfg tl o) as [[tl' c] res]. cbn [fst] in L.
+    rewrite IH by lia. destruct o; reflexivity.
+  Qed.
+  Theorem rn_all_ticks_ok cfg ops : forall tl, (n0 <= next_id tl)%nat ->
+    all_ticks_ok (rn_cfg cfg) (rn_tl tl) (map rn_op ops) = all_ticks_ok cfg tl ops.
+  Proof.
+    induction ops as [|o r IH]; intros tl N; [reflexivity|]. cbn [map all_ticks_ok]. rewrite rn_step by exact N.
+    pose proof (step_next_le cfg tl o) as L. destruct (step cfg tl o) as [[tl' c] res]. cbn [fst] in L.
+    rewrite IH by lia. destruct o; reflexivity.
+  Qed.
+  (* the full observation: calls and results are the same, the ids of the scheduled tracks are the renamed ids *)
+  Theorem rn_run cfg ops : forall tl, (n0 <= next_id tl)%nat ->
+    run (rn_cfg cfg) (rn_tl tl) (map rn_op ops) = map (fun ob : obs => (fst ob, map f (snd ob))) (run cfg tl ops).
+  Proof.
+    induction ops as [|o r IH]; intros tl N; [reflexivity|]. cbn [map run]. rewrite rn_step by exact N.
+    pose proof (step_next_le cfg tl o) as L. destruct (step cfg tl o) as [[tl' c] res]. cbn [fst] in L.
+    rewrite IH by lia. cbn [map fst snd]. change (tracks (rn_tl tl')) with (map rn_track (tracks tl')).
+    rewrite !map_map. reflexivity.
+  Qed.
 End Rename.
